@@ -8,6 +8,9 @@ Requests (SEP = hex bytes | none; the empty separator of --heading is `-`)
   c08.seq  SEP TERM (blocks hex…)     -> hex   output of search over `blocks` in traversal order
   c08.join SEP TERM (blocks hex…)     -> hex   contract: non-empty blocks joined by SEP++TERM
   c08.files (blocks hex…)             -> hex   files_parallel
+  c08.parse (lines s|dN …)            -> blocks [N:len …] gaps [k …] stray a b   the block grammar's cut
+  c08.parf SEP (items (hex 0|1)…)     -> hex   search_parallel when some searches fail part-way (1 = failed)
+  c08.seqf SEP TERM (items (hex 0|1)…)-> hex   search, ditto
   c08.threads SORT ONEFILE LOW AVAIL  -> n     (LOW = - | n)
   c08.filesep MODE HEADING CTX SEP    -> SEP   (MODE = standard | other)
   c08.guard SEP TERM                  -> 0|1   guard of theorem C08
@@ -25,6 +28,20 @@ def parseBlocks : Sx → Option (List Bytes)
   | .list (.atom "blocks" :: bs) => bs.mapM Sx.bytes?
   | _ => none
 
+/-- `(HEX FAILED)`: the bytes a file's search had printed when it returned, and whether it failed -/
+def parseItem : Sx → Option (Bytes × Bool)
+  | .list [b, f] => do pure ((← b.bytes?), (← f.bool?))
+  | _ => none
+
+/-- `s` = separator line, `dN` = a line of file number N -/
+def parseLine : Sx → Option Line
+  | .atom "s" => some .sep
+  | .atom t =>
+    match t.toList with
+    | 'd' :: ds => (String.ofList ds).toNat?.map fun p => Line.data p []
+    | _ => none
+  | _ => none
+
 def handle (cmd : String) (args : List Sx) : String :=
   match cmd, args with
   | "c08.par", [sep, bl] =>
@@ -39,6 +56,21 @@ def handle (cmd : String) (args : List Sx) : String :=
     match parseSep sep, term.bytes?, parseBlocks bl with
     | some sep, some term, some bl => toHex (joinSep (sepLine sep term) (nonempty bl))
     | _, _, _ => "bad-op"
+  | "c08.parf", [sep, .list (.atom "items" :: its)] =>
+    match parseSep sep, its.mapM parseItem with
+    | some sep, some its => toHex (outParF sep its)
+    | _, _ => "bad-op"
+  | "c08.seqf", [sep, term, .list (.atom "items" :: its)] =>
+    match parseSep sep, term.bytes?, its.mapM parseItem with
+    | some sep, some term, some its => toHex (outSeqF sep term its)
+    | _, _, _ => "bad-op"
+  | "c08.parse", [.list (.atom "lines" :: ls)] =>
+    match ls.mapM parseLine with
+    | some ls =>
+      let (blocks, gaps, stray, trailing) := parse ls
+      let bs := " ".intercalate (blocks.map fun pb => s!"{pb.1}:{pb.2.length}")
+      s!"blocks [{bs}] gaps [{natsToStr gaps}] stray {stray} {trailing}"
+    | none => "bad-op"
   | "c08.files", [bl] =>
     match parseBlocks bl with
     | some bl => toHex (outFilesPar bl)
